@@ -447,3 +447,16 @@ Proof.
   destruct (reader_progress_aux _ _ H Hp eq_refl Hd) as (n & Hn & Hg). exists n. split; [|exact Hg].
   pose proof (i_seg _ H). lia.
 Qed.
+
+(* The only place where the reader can go round without delivering or parking is the end of a full
+   active segment that has not been rolled yet (waitForData returns at once there): everything the log
+   holds has been delivered. *)
+Theorem spinning_reader_has_read_everything cap sched :
+  let s := trun tcode (tinit cap) sched in
+  t_waiting (s_rd s) = 2%N -> t_seg (s_rd s) = last_idx (s_segs s) ->
+  full (nth_sg (s_segs s) (last_idx (s_segs s))) = true /\
+  t_pos (s_rd s) = g_len (nth_sg (s_segs s) (last_idx (s_segs s))).
+Proof.
+  cbn zeta. intros Hw Hs. pose proof (trun_inv (tinit cap) sched (tinit_inv cap)) as H.
+  destruct (i_inner _ H Hw) as [Ep [Hf|Hl]]; rewrite Hs in *; [split; assumption|lia].
+Qed.
